@@ -62,6 +62,9 @@ func main() {
 				if c.Fn != nil && c.Fn.Name() == *check {
 					chk := v.CheckOf(c.Expr)
 					fmt.Printf("// CheckOf %s at %s: succ=%d fail=%d\n", *check, p.Pos(c.Pos()), len(chk.Succ), len(chk.Fail))
+					if chk.Node != nil && chk.Node.AST != nil {
+						fmt.Printf("//   node: %T %s..%s loose=%d propagated=%d\n", chk.Node.AST, p.Pos(chk.Node.AST.Pos()), p.Pos(chk.Node.AST.End()), len(chk.Loose), len(chk.Propagated))
+					}
 					for _, e := range chk.Succ {
 						fmt.Printf("//   succ edge: %s [%s] from %s\n", e.Kind, ir.ExprString(e.Cond), p.Pos(e.From.Pos()))
 					}
